@@ -158,9 +158,20 @@ def check_check_transition(ctx):
         if okbody and not has_break:
             gate_loops.append(lp)
     not_running = norm.nnf(ast.parse(f"{ns_p} != OperatorState.RUNNING", mode="eval").body)
+    # concrete spellings of "all parents COMPLETED" that occur in the function's conditions (for a path-sensitive query at joins)
+    done_atoms = set()
+    for nd in g.nodes:
+        for t_, lab in nd.succ:
+            if isinstance(lab, tuple) and lab[0] == "cond":
+                for a_ in norm.atoms_true(lab[1]):
+                    for b_ in ([a_] if a_[0] != "or" else list(a_[1])):
+                        ab = list(_abstract_facts({b_}, op_p))[0]
+                        if ab == ("truth", "@PARENTS_DONE", True):
+                            done_atoms.add(b_)
     for r in trues:
         fs_abs = _abstract_facts(g.facts_at(r), op_p)
-        if norm.entails(fs_abs, norm._mk("or", [not_running, ("truth", "@PARENTS_DONE", True)])):
+        if norm.entails(fs_abs, norm._mk("or", [not_running, ("truth", "@PARENTS_DONE", True)])) \
+                or (done_atoms and g.holds_at(r, norm._mk("or", [not_running] + sorted(done_atoms)))):
             ctx.ob(2, "K2", "an accepting verdict for RUNNING requires every parent to be COMPLETED", True, f, r,
                    detail="all()-form dependency test (or new_state != RUNNING) holds at the return")
             continue
